@@ -3,4 +3,5 @@ let table : (string * (Model.sexp -> Model.sexp)) list = [
   "c12", Model.c12_check;
   "c17", Model.c17_check;
   "interp", Model.interp_check;
+  "c19", Model.c19_check;
 ]
